@@ -56,6 +56,7 @@ type BatchCase struct {
 	WaitMs    int          `json:"wait_ms,omitempty"`
 	Post      *string      `json:"post,omitempty"`       // action returned by post (nil: "done")
 	SleepUs   int          `json:"sleep_us,omitempty"`   // free-running: upper bound of random per-call sleep
+	DwellMs   int          `json:"dwell_ms,omitempty"`   // gated: at the first two saturated quiescent points the controller waits this long before looking again (time-triggered behaviour such as submit timeouts gets its chance)
 	ErrResult bool         `json:"err_result,omitempty"` // failing attempts of the Result-style exec function return (NewErrorResult(e), nil) instead of (_, e): exercised by C17 only
 }
 
@@ -572,6 +573,14 @@ func (b *batchRun) build() flyt.Node {
 		if cs.FB {
 			opts = append(opts, flyt.WithExecFallbackFunc(b.fallback))
 		}
+		if cs.N%2 == 0 { // the exec function through the constructor as well
+			if cs.ExecStyle == "any" {
+				opts = append(opts, flyt.WithExecFuncAny(b.exec))
+			} else {
+				opts = append(opts, flyt.WithExecFunc(execR))
+			}
+			return flyt.NewBatchNode(opts...).WithPrepFunc(prepRes).WithPostFunc(b.post)
+		}
 		bn := flyt.NewBatchNode(opts...).WithPrepFunc(prepRes).WithPostFunc(b.post)
 		if cs.ExecStyle == "any" {
 			bn = bn.WithExecFuncAny(b.exec)
@@ -665,10 +674,29 @@ func runBatchCase(cs *BatchCase) *BatchObs {
 		self := quiesce.Self()
 		var st quiesce.Stats
 		step := 0
+		dwells := 0
 		prng := rand.New(rand.NewPCG(cs.PSeed, 99))
 		for {
 			sn, ok := quiesce.Wait(self, quiesceBudget, &st)
 			if !ok {
+				// Not quiescent for 20 s. If the context has been cancelled and the only goroutines that are not
+				// blocked are asleep in a timer sleep, the batch is sleeping out a wait it was told to abandon:
+				// that is the hang C11 forbids, not an inconclusive run.
+				onlySleepers := sn.Active > 0
+				for _, stt := range sn.States {
+					if stt != "sleep" && !quiesce.Blocked(stt) {
+						onlySleepers = false
+					}
+				}
+				b.mu.Lock()
+				cancelledAlready := b.cancelSeq >= 0
+				b.mu.Unlock()
+				if onlySleepers && cancelledAlready {
+					obs.Deadlock = true
+					dump := make([]byte, 1<<16)
+					obs.Dump = string(dump[:runtime.Stack(dump, true)])
+					break
+				}
 				obs.Incon = fmt.Sprintf("quiescence not reached within %v at step %d (states %v)", quiesceBudget, step, sn.States)
 				b.releaseAll()
 				break
@@ -685,6 +713,20 @@ func runBatchCase(cs *BatchCase) *BatchObs {
 			}
 			if finished {
 				break
+			}
+			if cs.DwellMs > 0 && dwells < 2 {
+				b.mu.Lock()
+				unstarted := cs.N - b.started
+				b.mu.Unlock()
+				if unstarted > 0 {
+					dwells++
+					time.Sleep(time.Duration(cs.DwellMs) * time.Millisecond)
+					if sn, ok = quiesce.Wait(self, quiesceBudget, &st); !ok {
+						obs.Incon = "quiescence not reached after dwell"
+						b.releaseAll()
+						break
+					}
+				}
 			}
 			b.mu.Lock()
 			keys := make([]int, 0, len(b.parked))
